@@ -136,6 +136,15 @@ def make_argv(truth, paths, opts, outdir, indir):
     return argv, prefixes
 
 
+def failure_site(log):
+    """innermost /repo frame + exception type of the last traceback in an IsoQuant log"""
+    import re
+    frames = re.findall(r'File "[^"]*?/(src/[\w/]+\.py|isoquant\.py)", line \d+, in (\w+)', log or "")
+    exc = re.findall(r"\n(\w+(?:Error|Exception|Exit))\b", log or "")
+    site = "%s:%s" % frames[-1] if frames else "?"
+    return "%s@%s" % (exc[-1] if exc else "?", site)
+
+
 def _log_tail(rundir, name="stdout.log", n=25):
     try:
         with open(os.path.join(rundir, name), "r", errors="replace") as f:
@@ -173,6 +182,14 @@ def summarize(r, rundir, truth, want=(), oracles=()):
         "picks": r["picks"], "perms": r["perms"], "crash_label": r["crash_label"], "argv": r["argv"],
         "pool_maps": len(r["maps"]),
     }
+    meta = {}
+    for k, v in files.items():
+        if k.endswith("_counts.tsv"):
+            lines = v.split(b"\n")
+            body = b"\n".join(l for l in lines if not l.startswith(b"__"))
+            meta[k] = {"body": hashlib.sha256(body).hexdigest()[:16],
+                       "stats": {l.split(b"\t")[0].decode(): l.split(b"\t")[-1].decode() for l in lines if l.startswith(b"__")}}
+    res["table_meta"] = meta
     if "labels" in want:
         res["labels"] = simrun.event_labels(r["trace"])
     if "trace" in want:
@@ -181,6 +198,12 @@ def summarize(r, rundir, truth, want=(), oracles=()):
         res["files"] = {k: v.decode("utf-8", "replace") for k, v in files.items()}
     if r["exit"] != 0 or r["harness_error"]:
         res["log_tail"] = _log_tail(rundir)
+        try:
+            with open(os.path.join(rundir, "stdout.log"), "r", errors="replace") as f:
+                res["failure_site"] = failure_site(f.read())
+        except OSError:
+            res["failure_site"] = "?"
+
     if oracles:
         from .oracles import run_oracles
         res["oracles"] = run_oracles(oracles, files, truth, r, rundir)
